@@ -33,12 +33,10 @@ def isBin (c : Char) : Bool := c == '0' || c == '1'
 def isEol (c : Char) : Bool := c == '\n' || c == '\r'
 
 def keywords : List Str :=
-  ["and", "or", "if", "then", "else", "is_some", "is_none", "none", "some", "int", "float", "dec", "contains", "in",
-   "date_time", "datetime", "duration", "to_upper", "to_lower", "uppercase", "lowercase", "trim", "round", "floor",
-   "fract", "year", "month", "week", "day", "hour", "minute", "second", "true", "false"].map String.toList
+  [['a', 'n', 'd'], ['o', 'r'], ['i', 'f'], ['t', 'h', 'e', 'n'], ['e', 'l', 's', 'e'], ['i', 's', '_', 's', 'o', 'm', 'e'], ['i', 's', '_', 'n', 'o', 'n', 'e'], ['n', 'o', 'n', 'e'], ['s', 'o', 'm', 'e'], ['i', 'n', 't'], ['f', 'l', 'o', 'a', 't'], ['d', 'e', 'c'], ['c', 'o', 'n', 't', 'a', 'i', 'n', 's'], ['i', 'n'], ['d', 'a', 't', 'e', '_', 't', 'i', 'm', 'e'], ['d', 'a', 't', 'e', 't', 'i', 'm', 'e'], ['d', 'u', 'r', 'a', 't', 'i', 'o', 'n'], ['t', 'o', '_', 'u', 'p', 'p', 'e', 'r'], ['t', 'o', '_', 'l', 'o', 'w', 'e', 'r'], ['u', 'p', 'p', 'e', 'r', 'c', 'a', 's', 'e'], ['l', 'o', 'w', 'e', 'r', 'c', 'a', 's', 'e'], ['t', 'r', 'i', 'm'], ['r', 'o', 'u', 'n', 'd'], ['f', 'l', 'o', 'o', 'r'], ['f', 'r', 'a', 'c', 't'], ['y', 'e', 'a', 'r'], ['m', 'o', 'n', 't', 'h'], ['w', 'e', 'e', 'k'], ['d', 'a', 'y'], ['h', 'o', 'u', 'r'], ['m', 'i', 'n', 'u', 't', 'e'], ['s', 'e', 'c', 'o', 'n', 'd'], ['t', 'r', 'u', 'e'], ['f', 'a', 'l', 's', 'e']]
 
-def punct2 : List Str := ["==", "!=", ">=", "<="].map String.toList
-def punct1 : List Char := "=><+-*/%!&|^@,:;.()[]{}".toList
+def punct2 : List Str := [['=', '='], ['!', '='], ['>', '='], ['<', '=']]
+def punct1 : List Char := ['=', '>', '<', '+', '-', '*', '/', '%', '!', '&', '|', '^', '@', ',', ':', ';', '.', '(', ')', '[', ']', '{', '}']
 
 /-- number of leading characters satisfying `p` -/
 def countWhile (p : Char → Bool) : Str → Nat
